@@ -17,6 +17,7 @@ import Driver.Ops.ConstraintCheck
 import Driver.Ops.PerL1
 import Driver.Ops.OpenType
 import Driver.Ops.Application
+import Driver.Ops.CompileDescr
 open Driver
 
 def handlers : List Handler := [
@@ -47,7 +48,8 @@ def step (line : String) : String :=
 def l2handlers : List Driver.Ops.L2.SubHandler := [
   Driver.Ops.L2.derHandler,
   Driver.Ops.L2Oer.oerHandler,
-  Driver.Ops.L2Uper.uperHandler
+  Driver.Ops.L2Uper.uperHandler,
+  Driver.Ops.CompileDescr.handler
 ]
 
 /-- L2 lines carry state (the current module): `l2mod <module-sexp>` selects it,
